@@ -38,6 +38,11 @@ def check_case(ctx, case):
     art = case['art']
     ox, oy = case['ox'], case['oy']
     rows = [''] * oy + [' ' * ox + r for r in art]
+    if case.get('blank'):
+        # the blanks of the page (indentation and the inside of the drawing) are no-break spaces, as in text copied
+        # from a web page or a word processor: still blanks, still one column each
+        rows = [r.replace(' ', case['blank']) for r in rows]
+        ctx.tag('pages_with_no_break_spaces')
     comp = case.get('companion')
     comp_els = []
     if comp:
@@ -130,6 +135,8 @@ def run_shard(ctx, shard):
         if rng.random() < 0.4:
             comp = (rng.choice(COMPANIONS), rng.choice(['right', 'below']))
         case = {'idx': idx, 'art': art, 'ox': ox, 'oy': oy, 'companion': comp, 'two_step': rng.random() < 0.3}
+        if rng.random() < 0.08:
+            case['blank'] = rng.choice(['\u00a0', '\u2007', '\u202f', '\u2003'])
         if rng.random() < 0.2 and not (comp and '"' in comp[0]):
             # (quoted text is kept outside the cell map, the edited-buffer path cannot carry it)
             case['previous'] = rng.choice(['+--+\n|  |\n+--+\n', 'abc def\n', ' .-.\n(   )\n `-\'\n', '-->\n', '\n'])
